@@ -971,11 +971,13 @@ def evaluate__analyze_string(self: XPathFunction, context: ta.ContextType = None
     if context is None:
         raise self.missing_context()
 
-    level = 0
+    # Parent group of each capturing group, from the nesting of the parentheses in the pattern
+    parents = [0]
+    open_groups: list[int] = []
     escaped = False
     char_class = False
-    group_levels = [0]
-    for s in compiled_pattern.pattern:
+    pattern_text = compiled_pattern.pattern
+    for i, s in enumerate(pattern_text):
         if escaped:
             escaped = False
         elif s == '\\':
@@ -986,83 +988,83 @@ def evaluate__analyze_string(self: XPathFunction, context: ta.ContextType = None
         elif s == '[':
             char_class = True
         elif s == '(':
-            group_levels.append(level)
-            level += 1
-        elif s == ')':
-            level -= 1
+            if pattern_text[i + 1:i + 2] == '?':
+                open_groups.append(0)  # not a capturing group
+            else:
+                parents.append(next((g for g in reversed(open_groups) if g), 0))
+                open_groups.append(len(parents) - 1)
+        elif s == ')' and open_groups:
+            open_groups.pop()
 
-    lines = ['<analyze-string-result xmlns="{}">'.format(XPATH_FUNCTIONS_NAMESPACE)]
+    etree = context.etree
+    ns_tag = '{{%s}}{}' % XPATH_FUNCTIONS_NAMESPACE
+
+    def append_text(elem: Any, text: str) -> None:
+        if not text:
+            pass
+        elif len(elem):
+            elem[-1].tail = (elem[-1].tail or '') + text
+        else:
+            elem.text = (elem.text or '') + text
+
+    if hasattr(etree, 'LxmlError'):
+        root = etree.Element(ns_tag.format('analyze-string-result'),
+                             nsmap={None: XPATH_FUNCTIONS_NAMESPACE})
+    else:
+        root = etree.Element(ns_tag.format('analyze-string-result'))
+
+    def add_child(tag: str, text: str) -> Any:
+        child = etree.SubElement(root, ns_tag.format(tag))
+        child.text = text
+        return child
+
     k = 0
-
     while k < len(input_string):
         match = compiled_pattern.search(input_string, k)
         if match is None:
-            lines.append('<non-match>{}</non-match>'.format(input_string[k:]))
+            add_child('non-match', input_string[k:])
             break
-        elif not match.groups():
-            start, stop = match.span()
-            if start > k:
-                lines.append('<non-match>{}</non-match>'.format(input_string[k:start]))
-            lines.append('<match>{}</match>'.format(input_string[start:stop]))
-            k = stop
-        else:
-            start, stop = match.span()
-            if start > k:
-                lines.append('<non-match>{}</non-match>'.format(input_string[k:start]))
-                k = start
 
-            match_items = []
-            group_tmpl = '<group nr="{}">{}'
-            empty_group_tmpl = '<group nr="{}"/>'
-            unclosed_groups = 0
+        start, stop = match.span()
+        if start > k:
+            add_child('non-match', input_string[k:start])
 
-            for idx in range(1, compiled_pattern.groups + 1):
-                _start, _stop = match.span(idx)
-                if _start < 0:
-                    continue
-                elif _start > k:
-                    if unclosed_groups:
-                        for _ in range(unclosed_groups):
-                            match_items.append('</group>')
-                        unclosed_groups = 0
+        match_elem = etree.SubElement(root, ns_tag.format('match'))
+        # Stack of the open elements: (group number, element, end of its span)
+        stack: list[tuple[int, Any, int]] = [(0, match_elem, stop)]
+        k = start
 
-                    match_items.append(input_string[k:_start])
+        for idx in range(1, compiled_pattern.groups + 1):
+            _start, _stop = match.span(idx)
+            if _start < 0:
+                continue
 
-                if _start == _stop:
-                    if group_levels[idx] <= group_levels[idx - 1]:
-                        for _ in range(unclosed_groups):
-                            match_items.append('</group>')
-                        unclosed_groups = 0
-                    match_items.append(empty_group_tmpl.format(idx))
-                    k = _stop
-                elif idx == compiled_pattern.groups:
-                    k = _stop
-                    match_items.append(group_tmpl.format(idx, input_string[_start:k]))
-                    match_items.append('</group>')
-                else:
-                    next_start = match.span(idx + 1)[0]
-                    if next_start < 0 or _stop < next_start or _stop == next_start \
-                            and group_levels[idx + 1] <= group_levels[idx]:
-                        k = _stop
-                        match_items.append(group_tmpl.format(idx, input_string[_start:k]))
-                        match_items.append('</group>')
-                    else:
-                        k = next_start
-                        match_items.append(group_tmpl.format(idx, input_string[_start:k]))
-                        unclosed_groups += 1
+            ancestors = set()
+            g = parents[idx]
+            while g:
+                ancestors.add(g)
+                g = parents[g]
+            ancestors.add(0)
 
-            for _ in range(unclosed_groups):
-                match_items.append('</group>')
+            while stack[-1][0] not in ancestors:
+                _, elem, end = stack.pop()
+                append_text(elem, input_string[k:end])
+                k = end
 
-            match_items.append(input_string[k:stop])
-            k = stop
-            lines.append('<match>{}</match>'.format(''.join(match_items)))
+            if _start < k or _stop > stack[-1][2]:
+                # A capture kept from a previous iteration of an enclosing repetition
+                continue
 
-    lines.append('</analyze-string-result>')
-    if self.parser.defuse_xml:
-        root = context.etree.XML(defuse_xml(''.join(lines)))
-    else:
-        root = context.etree.XML(''.join(lines))
+            append_text(stack[-1][1], input_string[k:_start])
+            k = _start
+            group_elem = etree.SubElement(stack[-1][1], ns_tag.format('group'))
+            group_elem.set('nr', str(idx))
+            stack.append((idx, group_elem, _stop))
+
+        while stack:
+            _, elem, end = stack.pop()
+            append_text(elem, input_string[k:end])
+            k = end
 
     return cast(ElementNode, get_node_tree(root=root, namespaces=self.parser.namespaces))
 
